@@ -40,7 +40,10 @@ impl Ctx {
 			.iter()
 			.enumerate()
 			.filter(|(i, o)| {
-				i % self.nshards == self.shard && self.only_type.as_ref().map_or(true, |n| n == o.name)
+				i % self.nshards == self.shard &&
+					self.only_type.as_ref().map_or(true, |n| n == o.name) &&
+					// kilobyte-sized values are left to the native and ASan stages
+					!(self.is_slow() && o.has_tag("huge"))
 			})
 			.map(|(_, o)| o)
 			.collect()
